@@ -1,6 +1,7 @@
 from harness import evprops, hcommon, hprop_run, mixed
 
 PROP = "C14"
+EXTRA_PROPS = ("C14b",)    # whole FSM: every fault callback any API call delivers follows the fault-handler table
 FAULT_TABLES = True
 DEFAULT_ONLY = False
 
@@ -30,7 +31,7 @@ def run(tier, seed):
     if PROP == "C14":
         rc_extra = evprops.set_handler_refuses()
     hc = hcommon.HandlerCheck(PROP, tier, seed)
-    hc.gate()
+    hc.gate(EXTRA_PROPS)
     hc.run_corpus(lambda kind: evprops.oracle_c14)
     for text in rc_extra:
         hc.v.violation("oracle: C14 " + text, {"api": "DefaultFaultHandlerBase.set_handler"})
